@@ -26,6 +26,8 @@ type c07Case struct {
 	Class  string   `json:"class,omitempty"` // mutation class that produced Hex
 }
 
+var c07Recorded int // inputs whose hash this worker process has recorded
+
 func init() {
 	fw.Register(&fw.Prop{
 		ID:       "C07",
@@ -86,8 +88,8 @@ func (t *c07Run) run(class string, in []byte) bool {
 	var err error
 	v := fw.Guard(len(in), func() { msg, err = of.Parse(in) })
 	nontrivial := len(in) >= 8 && in[1] <= 29 && t.base != nil
-	if t.recorded < 150000 {
-		t.recorded++
+	if c07Recorded < 150000 {
+		c07Recorded++
 		c.Distinct(prng.Hash64(in), nontrivial)
 	} else {
 		c.Evaluations(1)
